@@ -16,6 +16,7 @@ import (
 type globalFact struct {
 	ok  bool
 	why string
+	val *ssa.Const // set for initOnceConst facts
 }
 
 func (w *World) initOnceNonNil(g *types.Var) globalFact {
@@ -34,18 +35,18 @@ func (w *World) computeInitOnceNonNil(g *types.Var) globalFact {
 	switch g.Type().Underlying().(type) {
 	case *types.Interface, *types.Pointer:
 	default:
-		return globalFact{false, "not an interface or pointer"}
+		return globalFact{ok: false, why: "not an interface or pointer"}
 	}
 	if g.Pkg() == nil {
-		return globalFact{false, "no package"}
+		return globalFact{ok: false, why: "no package"}
 	}
 	sp := w.ssaPkg(g.Pkg().Path())
 	if sp == nil {
-		return globalFact{false, "package not loaded"}
+		return globalFact{ok: false, why: "package not loaded"}
 	}
 	sg, _ := sp.Members[g.Name()].(*ssa.Global)
 	if sg == nil {
-		return globalFact{false, "no ssa global"}
+		return globalFact{ok: false, why: "no ssa global"}
 	}
 	stores := 0
 	fns := allFunctions(w)
@@ -70,29 +71,29 @@ func (w *World) computeInitOnceNonNil(g *types.Var) globalFact {
 				switch x := in.(type) {
 				case *ssa.UnOp:
 					if x.Op != token.MUL {
-						return globalFact{false, "address used by " + fn.String()}
+						return globalFact{ok: false, why: "address used by " + fn.String()}
 					}
 				case *ssa.Store:
 					if x.Addr != ssa.Value(sg) {
-						return globalFact{false, "address stored by " + fn.String()}
+						return globalFact{ok: false, why: "address stored by " + fn.String()}
 					}
 					if fn.Pkg != sp || fn.Name() != "init" || fn.Synthetic == "" {
-						return globalFact{false, "written by " + fn.String()}
+						return globalFact{ok: false, why: "written by " + fn.String()}
 					}
 					if !neverNil(x.Val) {
-						return globalFact{false, "initialiser may be nil"}
+						return globalFact{ok: false, why: "initialiser may be nil"}
 					}
 					stores++
 				default:
-					return globalFact{false, "address escapes in " + fn.String()}
+					return globalFact{ok: false, why: "address escapes in " + fn.String()}
 				}
 			}
 		}
 	}
 	if stores != 1 {
-		return globalFact{false, "not initialised exactly once"}
+		return globalFact{ok: false, why: "not initialised exactly once"}
 	}
-	return globalFact{true, ""}
+	return globalFact{ok: true, why: ""}
 }
 
 func neverNil(v ssa.Value) bool {
@@ -138,4 +139,96 @@ func nonNilTerm(t string, typ types.Type) string {
 		return "(not (= (if.typ " + t + ") 0))"
 	}
 	return "(not (= " + t + " 0))"
+}
+
+// initOnceConst: a package-level variable of basic type that is written exactly once, by its
+// package initialiser, with a compile-time constant, and whose address is never taken: every load
+// yields that constant (e.g. `var appleDayLength = 86400 * time.Second`).
+func (w *World) initOnceConst(g *types.Var) globalFact {
+	if w.globalConsts == nil {
+		w.globalConsts = map[*types.Var]globalFact{}
+	}
+	if gf, ok := w.globalConsts[g]; ok {
+		return gf
+	}
+	gf := w.computeInitOnceConst(g)
+	w.globalConsts[g] = gf
+	return gf
+}
+
+func (w *World) computeInitOnceConst(g *types.Var) globalFact {
+	b, ok := g.Type().Underlying().(*types.Basic)
+	if !ok || b.Info()&(types.IsInteger|types.IsBoolean|types.IsString) == 0 || g.Pkg() == nil {
+		return globalFact{ok: false, why: "not of basic type"}
+	}
+	sp := w.ssaPkg(g.Pkg().Path())
+	if sp == nil {
+		return globalFact{ok: false, why: "package not loaded"}
+	}
+	sg, _ := sp.Members[g.Name()].(*ssa.Global)
+	if sg == nil {
+		return globalFact{ok: false, why: "no ssa global"}
+	}
+	var val *ssa.Const
+	stores := 0
+	fns := allFunctions(w)
+	if in := sp.Func("init"); in != nil {
+		fns[in] = true
+	}
+	for fn := range fns {
+		if fn.Blocks == nil {
+			continue
+		}
+		for _, b := range fn.Blocks {
+			for _, in := range b.Instrs {
+				uses := false
+				for _, op := range in.Operands(nil) {
+					if op != nil && *op == ssa.Value(sg) {
+						uses = true
+					}
+				}
+				if !uses {
+					continue
+				}
+				switch x := in.(type) {
+				case *ssa.UnOp:
+					if x.Op != token.MUL {
+						return globalFact{ok: false, why: "address used by " + fn.String()}
+					}
+				case *ssa.Store:
+					c, isConst := x.Val.(*ssa.Const)
+					if x.Addr != ssa.Value(sg) || fn.Pkg != sp || fn.Name() != "init" || fn.Synthetic == "" || !isConst {
+						return globalFact{ok: false, why: "written by " + fn.String()}
+					}
+					val = c
+					stores++
+				default:
+					return globalFact{ok: false, why: "address escapes in " + fn.String()}
+				}
+			}
+		}
+	}
+	if stores != 1 || val == nil {
+		return globalFact{ok: false, why: "not initialised exactly once with a constant"}
+	}
+	return globalFact{ok: true, val: val}
+}
+
+// globalConst records (once per unit and global) the census obligation and returns the constant
+// every load of g yields.
+func (u *Unit) globalConst(g *types.Var) (*ssa.Const, bool) {
+	gf := u.W.initOnceConst(g)
+	if !gf.ok {
+		return nil, false
+	}
+	key := "const:" + g.Pkg().Name() + "." + g.Name()
+	if u.globalsUsed == nil {
+		u.globalsUsed = map[string]bool{}
+	}
+	if !u.globalsUsed[key] {
+		u.globalsUsed[key] = true
+		o := u.oblige("global", u.Name, "true", "true", posStr(u.W.Fset, g.Pos()), g.Pkg().Name()+"."+g.Name()+" is written once, by its package initialiser, with the constant "+gf.val.Value.ExactString()+", and its address is not taken")
+		o.Status, o.Solver = "proved", "census"
+	}
+	return gf.val, true
 }
